@@ -9,13 +9,13 @@ IMPORTS = ["lib.Bytes", "model.XmlCodec", "model.XmlSchema", "gen.XmlSchema", "p
 TS_TABLE = {"DateTime": ["2020-01-02T03:04:05.000Z", "1970-01-01T00:00:00.000Z", "2038-01-19T03:14:07.999Z"],
             "HttpDate": ["Thu, 02 Jan 2020 03:04:05 GMT", "Thu, 01 Jan 1970 00:00:00 GMT"],
             "EpochSeconds": ["1577934245", "0"]}
-PRELUDE = ("Definition TSF (f : ts_fmt) (t : Z) : bytes := match f with "
-           + " | ".join("Ts%s => nth (Z.to_nat t) [%s] []" % (k, ";".join(coq_bytes(x.encode()) for x in v)) for k, v in TS_TABLE.items())
-           + " end.\n"
-           "Fixpoint index_of (s : bytes) (l : list bytes) (i : Z) : option Z := match l with [] => None | x :: r => if beq x s then Some i else index_of s r (i + 1)%Z end.\n"
-           "Definition TSP (f : ts_fmt) (s : bytes) : option Z := match f with "
-           + " | ".join("Ts%s => index_of s [%s] 0%%Z" % (k, ";".join(coq_bytes(x.encode()) for x in v)) for k, v in TS_TABLE.items())
-           + " end.\n"
+# the instants (nanoseconds) those texts denote: timestamp leaves hold instants, written and read by the timestamp model of C14 (model/Timestamp.v),
+# so that a document spelling an instant another way (lower-case t / z, an offset, more fraction digits) means the same to model and code
+TS_INSTANTS = {"DateTime": [1577934245 * 10**9, 0, 2147483647999 * 10**6], "HttpDate": [1577934245 * 10**9, 0], "EpochSeconds": [1577934245 * 10**9, 0]}
+PRELUDE = ("From S3V Require model.Timestamp.\n"
+           "Definition tsconv (f : ts_fmt) : Timestamp.tsf := match f with TsDateTime => Timestamp.DateTime | TsHttpDate => Timestamp.HttpDate | TsEpochSeconds => Timestamp.EpochSeconds end.\n"
+           "Definition TSF (f : ts_fmt) (t : Z) : bytes := match Timestamp.format_ts (tsconv f) t with Some s => s | None => [] end.\n"
+           "Definition TSP (f : ts_fmt) (s : bytes) : option Z := Timestamp.parse_ts (tsconv f) s.\n"
            "Definition SER := ser lval (leaf_enc TSF) Sch_today 40.\nDefinition DE := de lval (leaf_dec TSP) Sch_today 40.\n"
            "Definition show_err (e : err) : bytes := match e with EStart => b \"UnexpectedStart\" | ETag => b \"UnexpectedTagName\" | EDup => b \"DuplicateField\""
            " | EMissing => b \"MissingField\" | EContent => b \"InvalidContent\" | EFuel => b \"fuel\" | ESchema => b \"schema\" end.\n"
@@ -56,7 +56,7 @@ def gen_value(rng, sch, ty, depth):
         if l == "LLong":
             return "(VLeaf (LVi (%d)%%Z))" % rng.choice([0, 5, -7, 9223372036854775807, -9223372036854775808, rng.below(10**12)])
         if l == "LTs":
-            return "(VLeaf (LVt %d%%Z))" % rng.below(len(TS_TABLE[ty.get("ts") or "DateTime"]))
+            return "(VLeaf (LVt (%d)%%Z))" % rng.choice(TS_INSTANTS[ty.get("ts") or "DateTime"])
     T = ty["named"]
     e = sch["types"][T]
     if e["ser"]["kind"] == "union":
@@ -181,7 +181,7 @@ def run(ctx):
                        "are decoded by both (model on the expat tree) and compared; documents expat refuses only need to be handled without "
                        "panic. Non-trivial: distinct (type, outcome) documents.")
     ctx.cov["per_run_reflection"] = [dict(table="gen_xml", rows=len(sch["types"])), dict(table="roots_de", rows=len(sch["roots_de"]))]
-    r = ctx.coq(imports=IMPORTS)
+    r = ctx.coq(imports=IMPORTS + ["model.Timestamp"])
     if not r["ok"]:
         ctx.violation(dict(stage="coq", kind="proof obligation or audit failed", issues=r["issues"]), has_input=False)
     roots = sorted(t for t, v in sch["roots_de"].items() if v)
